@@ -85,6 +85,7 @@ type c05RObj struct {
 	tmpl, st, reserved [c05D]int64 // -1 = absent (tmpl, st); reserved 0 = absent
 	maxPods            int64
 	ownBad             bool
+	ownBadBoth         bool // the unparsable owner selector also carries matchLabels (not part of the op line: same meaning)
 }
 
 func (o *c05RObj) available() bool { return o.node != 0 && o.phase == 1 }
@@ -189,8 +190,11 @@ func (o *c05RObj) build() *schedulingv1alpha1.Reservation {
 	}
 	r.Status.Allocatable = st
 	if o.ownBad {
-		r.Spec.Owners = append(r.Spec.Owners, schedulingv1alpha1.ReservationOwner{LabelSelector: &metav1.LabelSelector{
-			MatchExpressions: []metav1.LabelSelectorRequirement{{Key: "k", Operator: "Bogus", Values: []string{"v"}}}}})
+		bad := &metav1.LabelSelector{MatchExpressions: []metav1.LabelSelectorRequirement{{Key: "k", Operator: "Bogus", Values: []string{"v"}}}}
+		if o.ownBadBoth {
+			bad.MatchLabels = map[string]string{"app": "a"}
+		}
+		r.Spec.Owners = append(r.Spec.Owners, schedulingv1alpha1.ReservationOwner{LabelSelector: bad})
 	}
 	return r
 }
@@ -471,6 +475,7 @@ func c05Mutate(r *vRand, o *c05RObj, namesMayChange bool) {
 		}
 	case 5:
 		o.ownBad = r.Chance(1, 3)
+		o.ownBadBoth = o.ownBad && r.Bool()
 	case 6:
 		if namesMayChange { // edit of the restricted-options annotation / allocatable key set
 			switch r.Intn(4) {
@@ -957,25 +962,140 @@ func c05EvalOwner(o c05Owner, pod *corev1.Pod) (obj, ctrl, lbl bool) {
 		}
 	}
 	if o.sel != nil {
-		for k, v := range o.sel.MatchLabels {
-			if pv, ok := pod.Labels[k]; !ok || pv != v {
-				lbl = false
-			}
-		}
-		for _, e := range o.sel.MatchExpressions { // only `In` is generated
-			pv, ok := pod.Labels[e.Key]
-			in := false
-			for _, v := range e.Values {
-				if ok && v == pv {
-					in = true
-				}
-			}
-			if !in {
-				lbl = false
-			}
-		}
+		l, e, _ := c05EvalSelector(o.sel, pod.Labels)
+		lbl = l && e
 	}
 	return
+}
+
+// independent evaluation of a metav1.LabelSelector on a label set, from its API documentation: "matchLabels is a map
+// of {key,value} pairs [...] equivalent to an element of matchExpressions whose operator is In; the requirements are
+// ANDed".  labelsOK = every matchLabels pair is carried; exprsOK = every expression holds (In: key present with one of
+// the values; NotIn: key absent or value not listed; Exists / DoesNotExist: key present / absent); invalid = the
+// selector is not a valid one (unknown operator, In / NotIn without values, Exists / DoesNotExist with values): it
+// selects nothing and the owner spec that carries it does not parse.
+func c05EvalSelector(sel *metav1.LabelSelector, lbls map[string]string) (labelsOK, exprsOK, invalid bool) {
+	labelsOK, exprsOK = true, true
+	for k, v := range sel.MatchLabels {
+		if pv, ok := lbls[k]; !ok || pv != v {
+			labelsOK = false
+		}
+	}
+	for _, e := range sel.MatchExpressions {
+		pv, has := lbls[e.Key]
+		listed := false
+		for _, v := range e.Values {
+			if has && v == pv {
+				listed = true
+			}
+		}
+		switch e.Operator {
+		case metav1.LabelSelectorOpIn:
+			if len(e.Values) == 0 {
+				invalid = true
+			}
+			if !listed {
+				exprsOK = false
+			}
+		case metav1.LabelSelectorOpNotIn:
+			if len(e.Values) == 0 {
+				invalid = true
+			}
+			if listed {
+				exprsOK = false
+			}
+		case metav1.LabelSelectorOpExists:
+			if len(e.Values) != 0 {
+				invalid = true
+			}
+			if !has {
+				exprsOK = false
+			}
+		case metav1.LabelSelectorOpDoesNotExist:
+			if len(e.Values) != 0 {
+				invalid = true
+			}
+			if has {
+				exprsOK = false
+			}
+		default:
+			invalid = true
+		}
+	}
+	if invalid {
+		exprsOK = false
+	}
+	return
+}
+
+// an expression on the pod's `tier` label (absent | canary | stable) for owner selectors that ALSO carry matchLabels
+func c05TierExpr(kind int) []metav1.LabelSelectorRequirement {
+	switch kind {
+	case 1:
+		return []metav1.LabelSelectorRequirement{{Key: "tier", Operator: metav1.LabelSelectorOpNotIn, Values: []string{"canary"}}}
+	case 2:
+		return []metav1.LabelSelectorRequirement{{Key: "tier", Operator: metav1.LabelSelectorOpIn, Values: []string{"stable"}}}
+	case 3:
+		return []metav1.LabelSelectorRequirement{{Key: "tier", Operator: metav1.LabelSelectorOpExists}}
+	case 4:
+		return []metav1.LabelSelectorRequirement{{Key: "tier", Operator: metav1.LabelSelectorOpDoesNotExist}}
+	case 5: // two expressions: both must hold
+		return []metav1.LabelSelectorRequirement{{Key: "tier", Operator: metav1.LabelSelectorOpExists},
+			{Key: "tier", Operator: metav1.LabelSelectorOpNotIn, Values: []string{"canary", "beta"}}}
+	case 6: // not a valid selector
+		return []metav1.LabelSelectorRequirement{{Key: "tier", Operator: "Bogus", Values: []string{"canary"}}}
+	}
+	return nil
+}
+
+var c05Tiers = []string{"", "canary", "stable"}
+
+// integer tokens of the generated label keys / values / operators for the `sel` op (model: Model/C05Sel.lean)
+var c05KeyTok = map[string]int{"app": 1, "tier": 2, "k": 3, apiext.LabelReservationIgnored: 4}
+var c05ValTok = map[string]int{"a": 1, "b": 2, "c": 3, "canary": 4, "stable": 5, "beta": 6, "v": 7, "true": 8}
+var c05OpTok = map[metav1.LabelSelectorOperator]int{metav1.LabelSelectorOpIn: 0, metav1.LabelSelectorOpNotIn: 1,
+	metav1.LabelSelectorOpExists: 2, metav1.LabelSelectorOpDoesNotExist: 3}
+
+func c05PairToks(t *testing.T, m map[string]string) string {
+	var ps [][2]int
+	for k, v := range m {
+		kt, ok1 := c05KeyTok[k]
+		vt, ok2 := c05ValTok[v]
+		if !ok1 || !ok2 {
+			t.Fatalf("harness: label %s=%s has no token", k, v)
+		}
+		ps = append(ps, [2]int{kt, vt})
+	}
+	sort.Slice(ps, func(i, j int) bool { return ps[i][0] < ps[j][0] })
+	s := strconv.Itoa(len(ps))
+	for _, p := range ps {
+		s += fmt.Sprintf(" %d %d", p[0], p[1])
+	}
+	return s
+}
+
+// the `sel` op line of one owner label selector against the pod's labels
+func c05SelLine(t *testing.T, sel *metav1.LabelSelector, lbls map[string]string) string {
+	s := c05PairToks(t, lbls) + " " + c05PairToks(t, sel.MatchLabels) + " " + strconv.Itoa(len(sel.MatchExpressions))
+	for _, e := range sel.MatchExpressions {
+		kt, ok := c05KeyTok[e.Key]
+		if !ok {
+			t.Fatalf("harness: key %s has no token", e.Key)
+		}
+		ot, ok := c05OpTok[e.Operator]
+		if !ok {
+			ot = 9
+		}
+		s += fmt.Sprintf(" %d %d %d", kt, ot, len(e.Values))
+		for _, v := range e.Values {
+			vt, ok := c05ValTok[v]
+			if !ok {
+				t.Fatalf("harness: value %s has no token", v)
+			}
+			s += " " + strconv.Itoa(vt)
+		}
+	}
+	return s
 }
 
 func TestVerifC05Match(t *testing.T) {
@@ -997,6 +1117,9 @@ func TestVerifC05Match(t *testing.T) {
 			pod.Labels["app"] = "a"
 		case 1:
 			pod.Labels["app"] = "b"
+		}
+		if tier := c05Tiers[r.Intn(3)]; tier != "" {
+			pod.Labels["tier"] = tier
 		}
 		if r.Bool() {
 			pod.OwnerReferences = []metav1.OwnerReference{{Name: []string{"rs1", "rs2"}[r.Intn(2)], Kind: "ReplicaSet", UID: "u1", Controller: ptr.To(r.Bool())}}
@@ -1036,14 +1159,41 @@ func TestVerifC05Match(t *testing.T) {
 					Values: [][]string{{"a"}, {"a", "b"}, {"c"}}[r.Intn(3)]}}}
 			case 2:
 				o.sel = &metav1.LabelSelector{} // empty selector matches everything
+			case 3: // BOTH parts: matchLabels (mostly the pod's own app) AND an expression on the pod's tier (In / NotIn / Exists / DoesNotExist / two of them)
+				app := []string{"a", "b"}[r.Intn(2)]
+				if pa, ok := pod.Labels["app"]; ok && r.Chance(2, 3) {
+					app = pa
+				}
+				o.sel = &metav1.LabelSelector{MatchLabels: map[string]string{"app": app}, MatchExpressions: c05TierExpr(r.Range(1, 5))}
+				if r.Chance(1, 6) { // labels on the tier, expression on the app
+					o.sel = &metav1.LabelSelector{MatchLabels: map[string]string{"tier": c05Tiers[r.Range(1, 2)]},
+						MatchExpressions: []metav1.LabelSelectorRequirement{{Key: "app", Operator: []metav1.LabelSelectorOperator{metav1.LabelSelectorOpIn, metav1.LabelSelectorOpNotIn}[r.Intn(2)],
+							Values: [][]string{{"a"}, {"a", "b"}, {"c"}}[r.Intn(3)]}}}
+				}
+				h.Tag("own:selector-with-labels-and-expressions")
 			}
 			owners = append(owners, o)
 			spec = append(spec, schedulingv1alpha1.ReservationOwner{Object: o.obj, Controller: o.ctrl, LabelSelector: o.sel})
 		}
 		perr := r.Chance(1, 12)
+		var badSel *metav1.LabelSelector
 		if perr {
-			spec = append(spec, schedulingv1alpha1.ReservationOwner{LabelSelector: &metav1.LabelSelector{
-				MatchExpressions: []metav1.LabelSelectorRequirement{{Key: "k", Operator: "Bogus", Values: []string{"v"}}}}})
+			badSel = &metav1.LabelSelector{MatchExpressions: []metav1.LabelSelectorRequirement{{Key: "k", Operator: "Bogus", Values: []string{"v"}}}}
+			if r.Bool() { // the invalid expression sits NEXT TO matchLabels (mostly ones the pod carries)
+				app := []string{"a", "b"}[r.Intn(2)]
+				if pa, ok := pod.Labels["app"]; ok && r.Chance(2, 3) {
+					app = pa
+				}
+				badSel = &metav1.LabelSelector{MatchLabels: map[string]string{"app": app}, MatchExpressions: c05TierExpr(6)}
+				if r.Chance(1, 3) { // In without values is no valid requirement either
+					badSel.MatchExpressions = []metav1.LabelSelectorRequirement{{Key: "tier", Operator: metav1.LabelSelectorOpIn}}
+				}
+				h.Tag("own:invalid-expression-next-to-labels")
+			}
+			if _, _, invalid := c05EvalSelector(badSel, pod.Labels); !invalid {
+				t.Fatal("harness: the selector meant to be invalid is valid by the harness' own reading")
+			}
+			spec = append(spec, schedulingv1alpha1.ReservationOwner{LabelSelector: badSel})
 		}
 		resCPU := int64(r.Range(1, 3) * 500)
 		res := &schedulingv1alpha1.Reservation{
@@ -1129,15 +1279,63 @@ func TestVerifC05Match(t *testing.T) {
 		if perr {
 			satisfied = false
 		}
+		// input class of a wrong acceptance (fingerprint only): some entry is satisfied in everything BUT the expressions
+		// of a selector that also has matchLabels
+		ownFP := "C05:owner-mismatch"
+		selText := "" // the label selectors of the spec's entries, for the failure message
+		for i, o := range spec {
+			if o.LabelSelector != nil {
+				selText += fmt.Sprintf(" [%d: matchLabels %v matchExpressions %v]", i, o.LabelSelector.MatchLabels, o.LabelSelector.MatchExpressions)
+			}
+		}
+		for _, o := range append(append([]c05Owner{}, owners...), c05Owner{sel: badSel}) {
+			if o.sel == nil || len(o.sel.MatchLabels) == 0 || len(o.sel.MatchExpressions) == 0 {
+				continue
+			}
+			a, b, _ := c05EvalOwner(o, pod)
+			if l, e, _ := c05EvalSelector(o.sel, pod.Labels); a && b && l && !e {
+				ownFP = "C05:owner-mismatch:labels-and-expressions"
+				h.Tag("own:labels-hold-expressions-violated")
+			}
+		}
 		sp := ""
 		if len(tri) > 0 {
 			sp = " " + vInts(tri)
+		}
+		// every label selector of the spec on its own: parsed through the real ParseReservationOwnerMatchers and evaluated by
+		// the real matcher; the model (Model/C05Sel.lean) reads the selector itself; ORACLE by the harness' own reading
+		for i, ow := range spec {
+			if ow.LabelSelector == nil {
+				continue
+			}
+			h.Op("sel %s", c05SelLine(t, ow.LabelSelector, pod.Labels))
+			parsed, accepted := false, false
+			if h.Guard(func() {
+				ms, err := reservationutil.ParseReservationOwnerMatchers([]schedulingv1alpha1.ReservationOwner{{LabelSelector: ow.LabelSelector}})
+				if err == nil && len(ms) == 1 {
+					parsed, accepted = true, ms[0].Match(pod)
+				}
+			}) {
+				h.Obs("sel panic")
+				continue
+			}
+			h.Obs("sel %d %d", vB(parsed), vB(accepted))
+			l, e, inv := c05EvalSelector(ow.LabelSelector, pod.Labels)
+			h.Tag(fmt.Sprintf("sel:labels=%d:exprs=%d:parsed=%v:accepted=%v", len(ow.LabelSelector.MatchLabels), len(ow.LabelSelector.MatchExpressions), parsed, accepted))
+			if accepted && !(l && e) {
+				fp := "C05:owner-mismatch"
+				if l && len(ow.LabelSelector.MatchLabels) > 0 && len(ow.LabelSelector.MatchExpressions) > 0 {
+					fp = "C05:owner-mismatch:labels-and-expressions"
+				}
+				h.Fail(fp, "owner entry %d: the matcher built from selector matchLabels %v matchExpressions %v accepts a pod with labels %v (matchLabels hold: %v, matchExpressions hold: %v, invalid selector: %v)",
+					i, ow.LabelSelector.MatchLabels, ow.LabelSelector.MatchExpressions, pod.Labels, l, e, inv)
+			}
 		}
 		h.Op("own %d %d%s", vB(perr), k, sp)
 		got := rInfo.MatchOwners(pod)
 		h.Obs("own %d", vB(got))
 		if got && !satisfied {
-			h.Fail("C05:owner-mismatch", "MatchOwners accepted a pod that satisfies none of the %d owner entries (parse error %v)", k, perr)
+			h.Fail(ownFP, "MatchOwners accepted a pod (labels %v) that satisfies none of the %d owner entries (all of matchLabels AND all of matchExpressions; unparsable spec: %v); selectors:%s", pod.Labels, len(spec), perr, selText)
 		}
 		h.Tag(fmt.Sprintf("own:%v", got))
 		h.Tag(fmt.Sprintf("owners:%d", k))
@@ -1162,7 +1360,7 @@ func TestVerifC05Match(t *testing.T) {
 				h.Tag(fmt.Sprintf("chk:%v", m))
 				// ORACLE: a pod is only matched (not merely "ignored") to a reservation whose owner spec it satisfies
 				if m && !ignored && !satisfied {
-					h.Fail("C05:owner-mismatch", "pod matched to a reservation although it satisfies none of its %d owner entries (parse error %v)", k, perr)
+					h.Fail(ownFP, "pod (labels %v) matched to a reservation although it satisfies none of its %d owner entries (all of matchLabels AND all of matchExpressions; unparsable spec: %v); selectors:%s", pod.Labels, len(spec), perr, selText)
 				}
 				if m && !ignored && satisfied {
 					h.Nontrivial()
@@ -1172,6 +1370,6 @@ func TestVerifC05Match(t *testing.T) {
 		h.End()
 	}
 	h.Close("one pod (name/uid/namespace/labels/controller reference varied) against one reservation with 0-3 owner entries (object reference, " +
-		"controller reference, label selector incl. In-expressions, empty selector, unparsable selector), unschedulable / terminating / tainted reservation, " +
+		"controller reference, label selector: matchLabels only / In-expression only / empty / BOTH matchLabels and matchExpressions (In, NotIn, Exists, DoesNotExist, two expressions; satisfied or violated by the pod's app / tier labels) / unparsable (unknown operator or In without values, alone or next to matchLabels the pod carries)), unschedulable / terminating / tainted reservation, " +
 		"pod with ignore label, reservation affinity by name / selector, tolerations, exact-match spec; non-trivial = matched through an owner entry; distinct by op lines")
 }
